@@ -15,18 +15,21 @@ RULE = ('sequences of assignments target[index] = rhs on identifier-tagged targe
         '(same shape, length-1 axes, lower rank, shapeless, plain numbers), masks in all representations, a second object '
         'sharing the target\'s mask array; distinct = distinct request line / case; non-trivial = some element written')
 MANIFEST = {
-    'text': 'Kernel-checked theorems (PMV/Props/C10.lean) about a code-shaped Lean model of the general path of '
-            'indexer.__setitem__ (prepared index of C09, mask expansion, relocation of the right-hand side, plain and '
-            'antimask write paths, NumPy assignment with last-writer semantics): update (a selected element holds what one '
-            'selecting coordinate lays over it), frame (unselected elements keep their value), masked or out-of-range '
-            'entries write nothing, read-back for duplicate-free indices, shape and any step-invariant preserved along '
-            'arbitrary sequences of assignments, mask array copied before writing. Tied to /repo on every run by a '
-            'correspondence check over sequences of assignments and judged directly by an independent loop-based reference '
-            '(full expanded state of target, derivatives and of an object sharing the mask array, before/after).',
+    'text': 'Kernel-checked theorems (PMV/Props/C10.lean, 14) about a code-shaped Lean model of the general path of '
+            'indexer.__setitem__ (prepared index of C09, mask expansion, right-hand side lined up and relocated, plain write '
+            'and write through the unmasked index elements, NumPy assignment with last-writer semantics, derivative loops): '
+            'state after an assignment = NumPy assignment of values AND mask through the kept coordinates for every mask '
+            'representation; frame (unselected elements, and elements selected only through masked / out-of-range entries, keep '
+            'value and mask); update; read-back for duplicate-free indices; derivatives updated through the same index with a '
+            'missing one counting as zero on either side; shape and any step-invariant preserved along arbitrary sequences; '
+            'mask array copied before writing. Tied to /repo on every run by a correspondence check over sequences of '
+            'assignments (object and derivatives) and judged directly by an independent loop-based reference (full expanded '
+            'state of target, derivatives and of an object sharing the mask array, before/after).',
     'design': 'DESIGN.md §3 C10, DESIGN.d/C10.md',
     'technique': 'Lean 4 proof (list lemmas on the assignment kernel, induction over assignment sequences) + model/code correspondence',
-    'note': 'Model covers right-hand sides that are shapeless or of the selection\'s rank, no derivatives, no whole-object path; '
-            'the rest is judged by the direct oracle only. Open findings KF-C10-1..5 (see known_findings.d/C10.json).',
+    'note': 'Model covers the general path with right-hand sides of at most the selection\'s rank, derivatives included; the '
+            'whole-object path (shapeless targets, a[...] = x) is judged by the direct oracle only. Six assignment defects of '
+            'the pinned tree repaired; open: KF-C10-4 (integer index on a zero-length axis, = KF-C09-1).',
 }
 ASSUMPTIONS = ['NumPy assigns duplicates in row-major order of the selection (last writer wins)',
                'for duplicate indices the oracle accepts any of the values assigned through a selecting coordinate',
@@ -436,6 +439,29 @@ def gen_cases(rng, tier):
         cases.append(mk(gen_case(rng, 1, derivs=rng.random() < 0.4)))
     for _ in range(6000 if thorough else 1200):
         cases.append(mk(gen_case(rng, rng.randint(2, 5), derivs=rng.random() < 0.3)))
+    # relocation stream: separated array indices (polymath moves the array axes) with right-hand sides of every
+    # rank from 0 to the selection's rank
+    pats = [['slice', 'iarr', 'slice', 'iarr'], ['none', 'iarr', 'slice', 'iarr'], ['slice', 'iarr', 'none', 'iarr'],
+            ['slice', 'slice', 'iarr', 'slice', 'iarr'], ['slice', 'iarr', 'ell', 'iarr'], ['bool', 'barr1', 'slice', 'iarr'],
+            ['slice', 'iarr', 'slice', 'int', 'iarr']]
+    for _ in range(3000 if thorough else 500):
+        kinds = rng.choice(pats)
+        rank = sum(G.CONS[k] for k in kinds) + (1 if 'ell' in kinds and rng.random() < 0.5 else 0)
+        shape = [rng.choice([1, 2, 3]) for _ in range(rank)]
+        t = {'cls': rng.choice(['Scalar', 'Scalar', 'Vector']), 'shape': shape, 'mask': G.rand_mask_rep(rng, shape, views=False),
+             'derivs': {}, 'shared': False}
+        t['item'] = rng.choice(R.ITEMS[t['cls']])
+        ents = G.concretise(rng, shape, kinds, p_mask=0.2, p_oob=0.1)
+        try:
+            out_shape, _ = R.ref_select(shape, ents)
+        except R.RefError:
+            continue
+        j = rng.randint(0, len(out_shape))
+        rs = list(out_shape[j:])
+        if rng.random() < 0.3:
+            rs = [1 if rng.random() < 0.4 else n for n in rs]
+        rhs = {'shape': rs, 'mask': G.rand_mask_rep(rng, rs), 'derivs': {}}
+        cases.append(mk({'target': t, 'steps': [{'index': ents, 'bare': False, 'rhs': rhs}]}))
     if thorough:
         for _ in range(600):
             cases.append(mk(gen_case(rng, 30, derivs=rng.random() < 0.3)))
